@@ -116,11 +116,42 @@ func c06(e *Env) {
 		}
 	}
 	e.positiveControls("chan-close")
-	obS := r.Ob("R1", "slot:send-sites", "sends on the slot channel occur in exactly one function (acquire)")
-	obR := r.Ob("R1", "slot:recv-sites", "receives on the slot channel occur in exactly one function (release)")
-	obS.Check(len(sendFns) == 1, "-", "acquire = "+fnNames(sendFns), "send sites in: "+fnNames(sendFns))
-	obR.Check(len(recvFns) == 1, "-", "release = "+fnNames(recvFns), "receive sites in: "+fnNames(recvFns))
-	if len(sendFns) != 1 || len(recvFns) != 1 {
+	obS := r.Ob("R1", "slot:send-sites", "sends on the slot channel occur only in the call tree of the acquire function (and that part of the tree is reachable only through it)")
+	obR := r.Ob("R1", "slot:recv-sites", "receives on the slot channel occur only in the call tree of the release function")
+	if len(a.acquire) != 1 || len(a.release) != 1 {
+		obS.Fail("-", "acquire/release functions not unique: send sites in "+fnNames(sendFns)+", receive sites in "+fnNames(recvFns))
+		return
+	}
+	treeOf := func(fn *ssa.Function) map[*ssa.Function]bool {
+		m := map[*ssa.Function]bool{}
+		if g := e.XG(fn); g != nil {
+			for _, c := range g.Ctxs {
+				m[c.Fn] = true
+			}
+		}
+		return m
+	}
+	confined := func(sites map[*ssa.Function]int, root *ssa.Function, ob *core.Obligation, what string) {
+		tree := treeOf(root)
+		if len(sites) == 0 {
+			ob.Fail("-", "no "+what+" on the slot channel at all")
+			return
+		}
+		for f := range sites {
+			ok := tree[f]
+			if ok && f != root {
+				for _, c := range p.Callers(f) {
+					if p.IsRepo(c) && !tree[c] && c.Synthetic == "" {
+						ok = false
+					}
+				}
+			}
+			ob.Check(ok, e.where(f.Blocks[0].Instrs[0]), what+" in "+core.FuncName(f)+" (below "+core.FuncName(root)+")", what+" on the slot channel in "+core.FuncName(f)+", outside (or reachable from outside) "+core.FuncName(root))
+		}
+	}
+	confined(sendFns, a.acquire[0], obS, "send")
+	confined(recvFns, a.release[0], obR, "receive")
+	if obS.Status != core.Discharged || obR.Status != core.Discharged {
 		return
 	}
 	acq, rel := a.acquire[0], a.release[0]
@@ -128,30 +159,52 @@ func c06(e *Env) {
 	for _, x := range []struct {
 		fn   *ssa.Function
 		name string
+		isOp func(*core.Node) bool
 		want string
-	}{{acq, "acquire", "send"}, {rel, "release", "recv"}} {
+	}{{acq, "acquire", a.isSlotSend, "send"}, {rel, "release", a.isSlotRecv, "receive"}} {
 		ob := r.Ob("R2", x.name+":n-ops", x.name+"(n) performs exactly n slot-channel operations: one per iteration of `for i := 0; i < n; i++`, n being its parameter, no early exit")
-		var ops []ssa.Instruction
-		for _, u := range uses {
-			if u.fn == x.fn && u.kind == x.want {
-				ops = append(ops, u.in)
+		gx := e.XG(x.fn)
+		if gx == nil {
+			continue
+		}
+		ops := gx.Select(x.isOp)
+		if len(ops) != 1 {
+			ob.Fail(core.FuncName(x.fn), fmt.Sprintf("%d %s operations on the slot channel in %s's call tree (exactly 1, inside the counted loop, expected)", len(ops), x.want, core.FuncName(x.fn)))
+			continue
+		}
+		las := iterLoops(gx, ops[0])
+		if len(las) != 1 {
+			ob.Fail(gx.Where(ops[0]), fmt.Sprintf("the %s is inside %d loops (exactly one counted loop expected)", x.want, len(las)))
+			continue
+		}
+		la := las[0]
+		bound, why := p.CountedLoopBound(la.At.Instr)
+		if bound == nil {
+			ob.Fail(gx.Where(ops[0]), why)
+			continue
+		}
+		bs := e.symbolizer().InCtx(la.At.Ctx, bound)
+		isParam := false
+		for _, pa := range x.fn.Params {
+			if bs.Op == "param" && bs.Name == pa.Name() && isIntType(pa.Type()) {
+				isParam = true
 			}
 		}
-		if len(ops) != 1 {
-			ob.Fail(e.where(x.fn.Blocks[0].Instrs[0]), fmt.Sprintf("%d %s instructions on the slot channel in %s (want exactly 1 inside the counted loop)", len(ops), x.want, core.FuncName(x.fn)))
-			continue
+		// inside the helper chain between the loop and the operation there must be no further loop or condition
+		straight := true
+		for y := ops[0]; y != la.At; y = y.Ctx.CallNode {
+			if y.Instr.Block() != y.Ctx.Fn.Blocks[0] && !y.Instr.Block().Dominates(lastBlock(y.Ctx.Fn)) {
+				straight = false
+			}
 		}
-		bound, why := p.CountedLoopBound(ops[0])
-		if bound == nil {
-			ob.Fail(e.where(ops[0]), why)
-			continue
+		switch {
+		case !isParam:
+			ob.Fail(gx.Where(ops[0]), "the loop bound is not the function's integer parameter: "+bs.String())
+		case !straight:
+			ob.Fail(gx.Where(ops[0]), "the "+x.want+" is conditional inside its helper")
+		default:
+			ob.OK(gx.Where(ops[0]), fmt.Sprintf("%s: one %s per iteration, bound = parameter %s", core.FuncName(x.fn), x.want, bs.Name))
 		}
-		par, ok := bound.(*ssa.Parameter)
-		if !ok || !isIntType(par.Type()) {
-			ob.Fail(e.where(ops[0]), "the loop bound is not the function's integer parameter: "+bound.String())
-			continue
-		}
-		ob.OK(e.where(ops[0]), fmt.Sprintf("%s: one %s per iteration, bound = parameter %s", core.FuncName(x.fn), x.want, par.Name()))
 	}
 	// ---- R3 ordering and pairing in Execute
 	g := e.XG(a.execute)
@@ -456,4 +509,16 @@ func (e *Env) checkCapRoot(ob *core.Obligation) {
 			ob.OK(e.where(st), detail)
 		}
 	}
+}
+
+// lastBlock: a block of fn that ends in a return (used for "executed on every path" tests inside helpers).
+func lastBlock(fn *ssa.Function) *ssa.BasicBlock {
+	for _, b := range fn.Blocks {
+		if len(b.Instrs) > 0 {
+			if _, ok := b.Instrs[len(b.Instrs)-1].(*ssa.Return); ok {
+				return b
+			}
+		}
+	}
+	return fn.Blocks[0]
 }
